@@ -8,7 +8,7 @@ if [ -n "$(git status --porcelain)" ]; then echo "/repo is not clean"; exit 2; f
 git apply "$PATCH" || { echo "patch does not apply"; exit 2; }
 cd /verif
 START=$(date +%s)
-./check "$PROP" "$TIER" > /tmp/seeded_eval.$$.log 2>&1
+VERIF_EVIDENCE_DIR=/verif/out/mutant-evidence ./check "$PROP" "$TIER" > /tmp/seeded_eval.$$.log 2>&1
 RC=$?
 END=$(date +%s)
 cd /repo && git apply -R "$PATCH"; git checkout -- . ; git status --porcelain
